@@ -59,7 +59,8 @@ def hostile_host(rng):
     if k == 10:
         return b"has space.sim", "space"
     if k == 11:
-        return b"a:b.sim", "colon"
+        # (with digits behind the colon the text reads as host:port to whoever splits it in another place)
+        return rng.choice([b"a:b.sim", b"h7.example.sim:8080", b"10.9.1.1:81", b"h7.example.sim:81:82", b":80", b"h7.example.sim:"]), "colon"
     if k == 12:
         return rng.choice([b"user@host.sim", b"good.sim@evil.sim", b"a/b.sim", b"evil.sim#good.sim", b"x?y.sim"]), "at"
     if k == 13:
